@@ -232,8 +232,9 @@ def finish(prop, ctx, tier, seed, t0, extra_cov=None, quiet=False):
             print(l)
         print("%s: %d obligations, %d discharged, %d violated (%d known), %d broken; %d fixtures; %.1fs" % (
             prop, len(real), len(okc), len(viol), len(known_hits), len(brok), len(fix), time.time() - t0))
-    if brok:
-        return 2
+    # a violated obligation comes from a *recognised* instance, so it stands even if another rule could not be evaluated
     if new_viol:
         return 1
+    if brok:
+        return 2
     return 0
